@@ -11,8 +11,8 @@ execution tables, any states / ages / projects / nesting), `cfg` any configurati
 (options may be unset), `env` says which deletes raise, `now` is the clock, `fuel`
 bounds the `while True` loops, and
   `after := (evaluate cfg env now fuel pop).pop`
-is what is committed when the evaluation ends — normally, by an exception, or by
-running out of fuel.  `UniqueIds pop` is primary-key uniqueness.
+is what is committed when the evaluation ends — normally, by an exception (a failing
+delete), or by running out of fuel.  `UniqueIds pop` is primary-key uniqueness.
 -/
 import Mistral.Model.Expire
 import Mistral.Lemmas.Expire
@@ -170,7 +170,8 @@ theorem keeps_newest (cfg : Config) (env : Env) (now : Int) (fuel : Nat) (pop af
     d.updatedAt ≤ k.updatedAt := by
   unfold evaluate at hok
   split at hok
-  · cases hok
+  · -- `older_than` unset: only the `superfluous` loop ran
+    exact superfluous_keeps_newest hu hok hd hdroot hdgone hk hke
   · rename_i ot hot
     split at hok
     · rename_i p1 h1
@@ -180,48 +181,13 @@ theorem keeps_newest (cfg : Config) (env : Env) (now : Int) (fuel : Nat) (pop af
       simp only [Outcome.pop] at inv1
       have hu1 : UniqueIds p1 := hu.sublist inv1.sub
       have hexit1 := loop_ok_exit _ env fuel pop p1 h1
-      have hexit2 := loop_ok_exit _ env fuel p1 after hok
       have inv2 := loop_superfluous_inv (cfg := cfg) (now := now) (pop0 := p1) env fuel p1 (Inv.init _ _)
       rw [hok] at inv2
       simp only [Outcome.pop] at inv2
       have hk1 : k ∈ p1 := inv2.sub.subset hk
       by_cases hd1 : d ∈ p1
       · -- removed by the `superfluous` loop
-        obtain ⟨r, hr, _, hsel, hdesc⟩ := inv2.del d hd1 hdgone
-        have hid := hdesc.root_eq hu1 d hd1 rfl hdroot
-        have := unique_of_id hu1 hd1 hr hid
-        subst this
-        have hde := hsel.1
-        cases hmf : cfg.maxFinished with
-        | none =>
-          have := loop_fetch_nil (superfluousIds cfg) env
-            (superfluousIds_nil_of_unset (Or.inl hmf)) fuel p1
-            (by intro h0; subst h0; simp [loop] at hok)
-          rw [this] at hok
-          cases hok
-          exact absurd hd1 hdgone
-        | some m =>
-          cases m with
-          | zero =>
-            have := loop_fetch_nil (superfluousIds cfg) env
-              (superfluousIds_nil_of_unset (Or.inr hmf)) fuel p1
-              (by intro h0; subst h0; simp [loop] at hok)
-            rw [this] at hok
-            cases hok
-            exact absurd hd1 hdgone
-          | succ m' =>
-            have hj := loop_superfluous_J env hmf p1 fuel p1
-              ⟨hu1, List.Sublist.refl _, fun x _ _ hx => absurd ‹x ∈ p1› hx⟩
-            rw [hok] at hj
-            simp only [Outcome.pop] at hj
-            have hcount := hj.2.2 d hd1 hde hdgone
-            have hle := superfluousIds_nil hmf (by omega) hexit2
-            apply Classical.byContradiction
-            intro hlt
-            have := countP_lt_of_witness (eligible cfg) (atLeastAsNew cfg d) after
-              (by intro x _ hx; simp only [atLeastAsNew, Bool.and_eq_true] at hx; exact hx.1)
-              ⟨k, hk, hke, by simp [atLeastAsNew, hke]; omega⟩
-            omega
+        exact superfluous_keeps_newest hu1 hok hd1 hdroot hdgone hk hke
       · -- removed by the `expired` loop: older than the age, and nothing that old is left
         have hkexp := expiredIds_nil hexit1 hk1 hke
         -- what the `expired` loop selects always carries the age reason
@@ -258,7 +224,7 @@ theorem terminates (cfg : Config) (env : Env) (now : Int) (fuel : Nat) (pop : Po
   intro Q
   unfold evaluate
   split
-  · intro h; cases h
+  · exact loop_terminates (superfluousIds cfg) env (superfluousIds_present cfg) fuel pop hfuel Q
   · rename_i ot _
     have t1 := loop_terminates (expiredIds cfg (now - ot * 60)) env (expiredIds_present cfg _)
       fuel pop hfuel
@@ -281,7 +247,7 @@ theorem batch_strictly_shrinks (env : Env) (P P' : Pop) (r : Nat) (rs : List Nat
   deleteBatch_shrinks env hdel hpresent
 
 /-- why that hypothesis matters: if the `except` handler of `_delete` logged and continued, as it
-    evidently intends to (today it raises TypeError itself, defect M), a delete that keeps failing
+    evidently intends to (today it raises TypeError itself, defect M(2)), a delete that keeps failing
     would make `_delete_until_depleted` spin forever — for every fuel the loop is still running. -/
 theorem lenient_handler_would_spin :
     ∃ (cfg : Config) (env : Env) (pop : Pop), ∀ fuel,
@@ -350,12 +316,14 @@ theorem remaining_is_sublist (cfg : Config) (env : Env) (now : Int) (fuel : Nat)
     the code's `while True` so that the correspondence check notices a loop that stops early.) -/
 theorem depleted_after_normal_end (cfg : Config) (env : Env) (now : Int) (fuel : Nat)
     (pop after : Pop) (hok : evaluate cfg env now fuel pop = .ok after) :
-    (∃ ot, cfg.olderThan = some ot ∧
+    (∀ ot, cfg.olderThan = some ot →
       ∀ k ∈ after, eligible cfg k = true → now - ot * 60 ≤ k.updatedAt) ∧
     (∀ m, cfg.maxFinished = some m → 0 < m → after.countP (eligible cfg) ≤ m) := by
   unfold evaluate at hok
   split at hok
-  · cases hok
+  · rename_i hnone
+    refine ⟨fun ot hot => (by rw [hnone] at hot; cases hot), fun m hm hpos => ?_⟩
+    exact superfluousIds_nil hm hpos (loop_ok_exit _ env fuel pop after hok)
   · rename_i ot hot
     split at hok
     · rename_i p1 h1
@@ -365,38 +333,56 @@ theorem depleted_after_normal_end (cfg : Config) (env : Env) (now : Int) (fuel :
         have := loop_superfluous_inv (cfg := cfg) (now := now) (pop0 := p1) env fuel p1 (Inv.init _ _)
         rw [hok] at this
         exact this.sub
-      exact ⟨⟨ot, hot, fun k hk he => expiredIds_nil hexit1 (hsub.subset hk) he⟩,
-        fun m hm hpos => superfluousIds_nil hm hpos hexit2⟩
+      refine ⟨fun ot' hot' k hk he => ?_, fun m hm hpos => superfluousIds_nil hm hpos hexit2⟩
+      rw [hot] at hot'
+      cases hot'
+      exact expiredIds_nil hexit1 (hsub.subset hk) he
     · rename_i hno
       exact absurd hok (hno after)
 
 /-! ### unset options -/
 
-/-- "(including unset ones)": an unset option should simply impose no constraint.  For
-    `older_than` this is FALSE of the current code (defect M): the generated default is
-    `none`, and then the evaluation is not "only the max_finished_executions rule" but an
-    exception before anything is deleted. -/
-theorem unset_options_mean_no_constraint_full_fails :
-    ¬ (∀ (cfg : Config) (env : Env) (now : Int) (fuel : Nat) (pop : Pop),
-        cfg.olderThan = none →
-        evaluate cfg env now fuel pop = loop (superfluousIds cfg) env fuel pop) := by
-  intro h
-  have := h { demoCfg with olderThan := none } noFaults 0 12 demoPop rfl
-  revert this
-  decide
+/-- "(including unset ones)": an unset option imposes no constraint.
+    * `older_than` unset (the generated default, see `default_older_than_unset`): no age
+      constraint — the evaluation is exactly the `max_finished_executions` rule;
+    * `max_finished_executions` unset or 0: no count constraint — the evaluation is exactly the
+      age rule;
+    * both unset: nothing is touched.
+    (Before /repo commit 2457b86b the first clause was false: `timedelta(minutes=None)` raised
+    TypeError on every evaluation — defect M(1), now a regression case in corpus/C18.) -/
+theorem unset_options_mean_no_constraint (cfg : Config) (env : Env) (now : Int) (fuel : Nat)
+    (pop : Pop) :
+    (cfg.olderThan = none →
+      evaluate cfg env now fuel pop = loop (superfluousIds cfg) env fuel pop) ∧
+    (∀ ot, cfg.olderThan = some ot → (cfg.maxFinished = none ∨ cfg.maxFinished = some 0) →
+      evaluate cfg env now fuel pop = loop (expiredIds cfg (now - ot * 60)) env fuel pop) ∧
+    (cfg.olderThan = none → (cfg.maxFinished = none ∨ cfg.maxFinished = some 0) → fuel ≠ 0 →
+      evaluate cfg env now fuel pop = .ok pop) := by
+  refine ⟨?_, ?_, ?_⟩
+  · intro h
+    unfold evaluate
+    rw [h]
+  · intro ot hot hmf
+    unfold evaluate
+    rw [hot]
+    simp only
+    split
+    · rename_i p1 h1
+      have hf : fuel ≠ 0 := by intro h0; subst h0; simp [loop] at h1
+      rw [loop_fetch_nil (superfluousIds cfg) env (superfluousIds_nil_of_unset hmf) fuel p1 hf]
+      exact h1.symm
+    · rfl
+  · intro h hmf hf
+    unfold evaluate
+    rw [h]
+    exact loop_fetch_nil (superfluousIds cfg) env (superfluousIds_nil_of_unset hmf) fuel pop hf
 
-/-- the root cause is in the generated defaults: `older_than` has none -/
+/-- Tie A: the generated default of `older_than` is "unset" -/
 theorem default_older_than_unset : defaultConfig.olderThan = none := by decide
 
-/-- with `older_than` unset every evaluation raises, whatever else is configured ... -/
-theorem older_than_unset_always_raises (cfg : Config) (env : Env) (now : Int) (fuel : Nat)
-    (pop : Pop) (h : cfg.olderThan = none) :
-    evaluate cfg env now fuel pop = .crashed .olderThanUnset pop := by
-  unfold evaluate
-  rw [h]
-
-/-- ... although `max_finished_executions ≥ 1` alone is enough for the periodic task to be
-    registered (`__init__`), so such a deployment evaluates — and fails — every interval. -/
+/-- `max_finished_executions ≥ 1` alone is enough for the periodic task to be registered
+    (`__init__`), so a deployment that sets only that option does evaluate — by
+    `unset_options_mean_no_constraint` with the count rule only. -/
 theorem only_max_finished_enables (cfg : Config) (i : Int) (m : Nat)
     (hi : cfg.evaluationInterval = some i) (hpos : 0 < i) (hm : cfg.maxFinished = some m)
     (hm1 : 1 ≤ m) : enabled cfg = true := by
@@ -409,24 +395,16 @@ theorem only_max_finished_enables (cfg : Config) (i : Int) (m : Nat)
   simp only [Option.map, this, Bool.or_true, Bool.and_true, decide_eq_true_eq]
   exact hpos
 
-/-- The part that does hold (excluded inputs: `cfg.olderThan = none`, a decidable predicate):
-    with `older_than` set, an unset `max_finished_executions` (no value, or 0) imposes no
-    constraint — the evaluation is exactly the age rule; and `batch_size` 0 means no limit. -/
-theorem unset_options_mean_no_constraint_partial (cfg : Config) (env : Env) (now : Int)
-    (fuel : Nat) (pop : Pop) (ot : Int) (hot : cfg.olderThan = some ot)
-    (hmf : cfg.maxFinished = none ∨ cfg.maxFinished = some 0) :
-    evaluate cfg env now fuel pop = loop (expiredIds cfg (now - ot * 60)) env fuel pop := by
-  unfold evaluate
-  rw [hot]
-  simp only
-  split
-  · rename_i p1 h1
-    have hf : fuel ≠ 0 := by intro h0; subst h0; simp [loop] at h1
-    rw [loop_fetch_nil (superfluousIds cfg) env (superfluousIds_nil_of_unset hmf) fuel p1 hf]
-    exact h1.symm
-  · rfl
-
 theorem batch_size_zero_is_no_limit {α : Type} (l : List α) : limit 0 l = l := rfl
+
+/-- non-vacuity (and the regression witness of M(1), corpus/C18/m_older_than_unset.json): with
+    only `max_finished_executions = 2` set the evaluation ends normally and removes the two
+    superfluous roots 8 and 1 (with 1's subtree) -/
+example : evaluate { demoCfg with olderThan := none } noFaults 0 12 demoPop =
+    .ok (evaluate { demoCfg with olderThan := none } noFaults 0 12 demoPop).pop ∧
+    (evaluate { demoCfg with olderThan := none } noFaults 0 12 demoPop).pop.map (·.id)
+      = [6, 7, 9, 10, 11] := by
+  decide
 
 example : evaluate { demoCfg with maxFinished := none } noFaults 0 12 demoPop =
     loop (expiredIds { demoCfg with maxFinished := none } (0 - 60 * 60)) noFaults 12 demoPop ∧
